@@ -34,6 +34,9 @@ VARIANTS = {
     "asan":  ("clang", ["-O1", "-g", "-fsanitize=address,undefined", "-fno-sanitize=alignment,pointer-overflow",
                         "-fno-sanitize-recover=undefined", "-fno-omit-frame-pointer", "-fno-common",
                         "-DBEE2_VERIF_EXACT_BLOB"]),
+    # page-rounded blobs (the shipped BLOB_PAGE_SIZE): the blob bookkeeping itself is under test
+    "asanpage": ("clang", ["-O1", "-g", "-fsanitize=address,undefined", "-fno-sanitize=alignment,pointer-overflow",
+                        "-fno-sanitize-recover=undefined", "-fno-omit-frame-pointer", "-fno-common"]),
     "asanw32": ("clang", ["-O1", "-g", "-fsanitize=address,undefined", "-fno-sanitize=alignment,pointer-overflow",
                         "-fno-sanitize-recover=undefined", "-fno-omit-frame-pointer", "-fno-common",
                         "-DBEE2_VERIF_EXACT_BLOB", "-DBEE2_VERIF_W32"]),
